@@ -9,22 +9,22 @@
 EXTENDS Pool_IndProof
 
 LEMMA A_SmhLock == ASSUME ParamOK, PInv, NEW k \in Conns, NEW s \in Nat, SmhLock(k, s) PROVE ActGoals
-  BY InfNat, SMT DEF ParamOK, PInv, FT, FT_Conn, FT_Pool, FT_Wait, FT_Run, IndInv, TypeInv, LockInv, TI_Conn, TI_Pool, TI_Chan, TI_Run, LI_RW, LI_Run, LI_Wait, LI_Reg, LI_Clk, Procs, CPcs, RPcs, WPcs, WIn, WPend, Conns, WCap, connVars, poolVars, waitVars, runVars, Msg2, Msg3, ActGoals, ChanWriteDiscipline, WaitListDiscipline, ConnLockDiscipline, SmhLock, G_SmhLock
+  BY SMT DEF ActGoals, ChanWriteDiscipline, WaitListDiscipline, ConnLockDiscipline, connVars, poolVars, waitVars, runVars, SmhLock
 
 LEMMA A_SmhSet == ASSUME ParamOK, PInv, NEW k \in Conns, SmhSet(k) PROVE ActGoals
-  BY InfNat, SMT DEF ParamOK, PInv, FT, FT_Conn, FT_Pool, FT_Wait, FT_Run, IndInv, TypeInv, LockInv, TI_Conn, TI_Pool, TI_Chan, TI_Run, LI_RW, LI_Run, LI_Wait, LI_Reg, LI_Clk, Procs, CPcs, RPcs, WPcs, WIn, WPend, Conns, WCap, connVars, poolVars, waitVars, runVars, Msg2, Msg3, ActGoals, ChanWriteDiscipline, WaitListDiscipline, ConnLockDiscipline, SmhSet, G_SmhSet
+  BY SMT DEF ActGoals, ChanWriteDiscipline, WaitListDiscipline, ConnLockDiscipline, connVars, poolVars, waitVars, runVars, SmhSet
 
 LEMMA A_SmhSend == ASSUME ParamOK, PInv, NEW k \in Conns, SmhSend(k) PROVE ActGoals
   BY InfNat, SMT DEF ParamOK, PInv, FT, FT_Conn, FT_Pool, FT_Wait, FT_Run, IndInv, TypeInv, LockInv, TI_Conn, TI_Pool, TI_Chan, TI_Run, LI_RW, LI_Run, LI_Wait, LI_Reg, LI_Clk, Procs, CPcs, RPcs, WPcs, WIn, WPend, Conns, WCap, connVars, poolVars, waitVars, runVars, Msg2, Msg3, ActGoals, ChanWriteDiscipline, WaitListDiscipline, ConnLockDiscipline, SmhSend, G_SmhSend
 
 LEMMA A_Flip == ASSUME ParamOK, PInv, NEW k \in Conns, Flip(k) PROVE ActGoals
-  BY InfNat, SMT DEF ParamOK, PInv, FT, FT_Conn, FT_Pool, FT_Wait, FT_Run, IndInv, TypeInv, LockInv, TI_Conn, TI_Pool, TI_Chan, TI_Run, LI_RW, LI_Run, LI_Wait, LI_Reg, LI_Clk, Procs, CPcs, RPcs, WPcs, WIn, WPend, Conns, WCap, connVars, poolVars, waitVars, runVars, Msg2, Msg3, ActGoals, ChanWriteDiscipline, WaitListDiscipline, ConnLockDiscipline, Flip
+  BY SMT DEF ActGoals, ChanWriteDiscipline, WaitListDiscipline, ConnLockDiscipline, connVars, poolVars, waitVars, runVars, Flip
 
 LEMMA A_RunRecv == ASSUME ParamOK, PInv, RunRecv PROVE ActGoals
   BY InfNat, SMT DEF ParamOK, PInv, FT, FT_Conn, FT_Pool, FT_Wait, FT_Run, IndInv, TypeInv, LockInv, TI_Conn, TI_Pool, TI_Chan, TI_Run, LI_RW, LI_Run, LI_Wait, LI_Reg, LI_Clk, Procs, CPcs, RPcs, WPcs, WIn, WPend, Conns, WCap, connVars, poolVars, waitVars, runVars, Msg2, Msg3, ActGoals, ChanWriteDiscipline, WaitListDiscipline, ConnLockDiscipline, RunRecv
 
 LEMMA A_RunRLock == ASSUME ParamOK, PInv, RunRLock PROVE ActGoals
-  BY InfNat, SMT DEF ParamOK, PInv, FT, FT_Conn, FT_Pool, FT_Wait, FT_Run, IndInv, TypeInv, LockInv, TI_Conn, TI_Pool, TI_Chan, TI_Run, LI_RW, LI_Run, LI_Wait, LI_Reg, LI_Clk, Procs, CPcs, RPcs, WPcs, WIn, WPend, Conns, WCap, connVars, poolVars, waitVars, runVars, Msg2, Msg3, ActGoals, ChanWriteDiscipline, WaitListDiscipline, ConnLockDiscipline, RunRLock, Free, RLock
+  BY SMT DEF ActGoals, ChanWriteDiscipline, WaitListDiscipline, ConnLockDiscipline, connVars, poolVars, waitVars, runVars, RunRLock, Free, RLock
 
 LEMMA A_RunSend == ASSUME ParamOK, PInv, NEW w \in Waiters, RunSend(w) PROVE ActGoals
 <1> DEFINE e == <<rupd[2], rupd[1], best>>
@@ -38,28 +38,28 @@ LEMMA A_RunSend == ASSUME ParamOK, PInv, NEW w \in Waiters, RunSend(w) PROVE Act
   BY <1>1, <1>2, SMT DEF ParamOK, PInv, FT, FT_Conn, FT_Pool, FT_Wait, FT_Run, IndInv, TypeInv, LockInv, TI_Conn, TI_Pool, TI_Chan, TI_Run, LI_RW, LI_Run, LI_Wait, LI_Reg, LI_Clk, Procs, CPcs, RPcs, WPcs, WIn, WPend, Conns, WCap, connVars, poolVars, waitVars, runVars, Msg2, Msg3, ActGoals, ChanWriteDiscipline, WaitListDiscipline, ConnLockDiscipline
 
 LEMMA A_RunRUnlock == ASSUME ParamOK, PInv, RunRUnlock PROVE ActGoals
-  BY InfNat, SMT DEF ParamOK, PInv, FT, FT_Conn, FT_Pool, FT_Wait, FT_Run, IndInv, TypeInv, LockInv, TI_Conn, TI_Pool, TI_Chan, TI_Run, LI_RW, LI_Run, LI_Wait, LI_Reg, LI_Clk, Procs, CPcs, RPcs, WPcs, WIn, WPend, Conns, WCap, connVars, poolVars, waitVars, runVars, Msg2, Msg3, ActGoals, ChanWriteDiscipline, WaitListDiscipline, ConnLockDiscipline, RunRUnlock, RUnlock
+  BY SMT DEF ActGoals, ChanWriteDiscipline, WaitListDiscipline, ConnLockDiscipline, connVars, poolVars, waitVars, runVars, RunRUnlock, RUnlock
 
 LEMMA A_RunTick == ASSUME ParamOK, PInv, RunTick PROVE ActGoals
-  BY InfNat, SMT DEF ParamOK, PInv, FT, FT_Conn, FT_Pool, FT_Wait, FT_Run, IndInv, TypeInv, LockInv, TI_Conn, TI_Pool, TI_Chan, TI_Run, LI_RW, LI_Run, LI_Wait, LI_Reg, LI_Clk, Procs, CPcs, RPcs, WPcs, WIn, WPend, Conns, WCap, connVars, poolVars, waitVars, runVars, Msg2, Msg3, ActGoals, ChanWriteDiscipline, WaitListDiscipline, ConnLockDiscipline, RunTick, Free, Announce
+  BY SMT DEF ActGoals, ChanWriteDiscipline, WaitListDiscipline, ConnLockDiscipline, connVars, poolVars, waitVars, runVars, RunTick, Free, Announce
 
 LEMMA A_RunUpdAcq == ASSUME ParamOK, PInv, RunUpdAcq PROVE ActGoals
-  BY InfNat, SMT DEF ParamOK, PInv, FT, FT_Conn, FT_Pool, FT_Wait, FT_Run, IndInv, TypeInv, LockInv, TI_Conn, TI_Pool, TI_Chan, TI_Run, LI_RW, LI_Run, LI_Wait, LI_Reg, LI_Clk, Procs, CPcs, RPcs, WPcs, WIn, WPend, Conns, WCap, connVars, poolVars, waitVars, runVars, Msg2, Msg3, ActGoals, ChanWriteDiscipline, WaitListDiscipline, ConnLockDiscipline, RunUpdAcq, CanAcquire, Acquire
+  BY SMT DEF ActGoals, ChanWriteDiscipline, WaitListDiscipline, ConnLockDiscipline, connVars, poolVars, waitVars, runVars, RunUpdAcq, CanAcquire, Acquire
 
 LEMMA A_RunUpdBody == ASSUME ParamOK, PInv, RunUpdBody PROVE ActGoals
-  BY InfNat, SMT DEF ParamOK, PInv, FT, FT_Conn, FT_Pool, FT_Wait, FT_Run, IndInv, TypeInv, LockInv, TI_Conn, TI_Pool, TI_Chan, TI_Run, LI_RW, LI_Run, LI_Wait, LI_Reg, LI_Clk, Procs, CPcs, RPcs, WPcs, WIn, WPend, Conns, WCap, connVars, poolVars, waitVars, runVars, Msg2, Msg3, ActGoals, ChanWriteDiscipline, WaitListDiscipline, ConnLockDiscipline, RunUpdBody, WUnlock, UpdateBest, Choices, BestPing, FirstWorking, GoodSet, ConnState
+  BY SMT DEF ActGoals, ChanWriteDiscipline, WaitListDiscipline, ConnLockDiscipline, connVars, poolVars, waitVars, runVars, RunUpdBody, WUnlock, UpdateBest, Choices, BestPing, FirstWorking, GoodSet, ConnState
 
 LEMMA A_WStart == ASSUME ParamOK, PInv, NEW w \in Waiters, NEW s \in Nat, NEW t \in Nat, WStart(w, s, t) PROVE ActGoals
-  BY InfNat, SMT DEF ParamOK, PInv, FT, FT_Conn, FT_Pool, FT_Wait, FT_Run, IndInv, TypeInv, LockInv, TI_Conn, TI_Pool, TI_Chan, TI_Run, LI_RW, LI_Run, LI_Wait, LI_Reg, LI_Clk, Procs, CPcs, RPcs, WPcs, WIn, WPend, Conns, WCap, connVars, poolVars, waitVars, runVars, Msg2, Msg3, ActGoals, ChanWriteDiscipline, WaitListDiscipline, ConnLockDiscipline, WStart
+  BY SMT DEF ActGoals, ChanWriteDiscipline, WaitListDiscipline, ConnLockDiscipline, connVars, poolVars, waitVars, runVars, WStart
 
 LEMMA A_WSubAnn == ASSUME ParamOK, PInv, NEW w \in Waiters, WSubAnn(w) PROVE ActGoals
-  BY InfNat, SMT DEF ParamOK, PInv, FT, FT_Conn, FT_Pool, FT_Wait, FT_Run, IndInv, TypeInv, LockInv, TI_Conn, TI_Pool, TI_Chan, TI_Run, LI_RW, LI_Run, LI_Wait, LI_Reg, LI_Clk, Procs, CPcs, RPcs, WPcs, WIn, WPend, Conns, WCap, connVars, poolVars, waitVars, runVars, Msg2, Msg3, ActGoals, ChanWriteDiscipline, WaitListDiscipline, ConnLockDiscipline, WSubAnn, Free, Announce
+  BY SMT DEF ActGoals, ChanWriteDiscipline, WaitListDiscipline, ConnLockDiscipline, connVars, poolVars, waitVars, runVars, WSubAnn, Free, Announce
 
 LEMMA A_WSubAcq == ASSUME ParamOK, PInv, NEW w \in Waiters, WSubAcq(w) PROVE ActGoals
-  BY InfNat, SMT DEF ParamOK, PInv, FT, FT_Conn, FT_Pool, FT_Wait, FT_Run, IndInv, TypeInv, LockInv, TI_Conn, TI_Pool, TI_Chan, TI_Run, LI_RW, LI_Run, LI_Wait, LI_Reg, LI_Clk, Procs, CPcs, RPcs, WPcs, WIn, WPend, Conns, WCap, connVars, poolVars, waitVars, runVars, Msg2, Msg3, ActGoals, ChanWriteDiscipline, WaitListDiscipline, ConnLockDiscipline, WSubAcq, CanAcquire, Acquire
+  BY SMT DEF ActGoals, ChanWriteDiscipline, WaitListDiscipline, ConnLockDiscipline, connVars, poolVars, waitVars, runVars, WSubAcq, CanAcquire, Acquire
 
 LEMMA A_WSubRead == ASSUME ParamOK, PInv, NEW w \in Waiters, WSubRead(w) PROVE ActGoals
-  BY InfNat, SMT DEF ParamOK, PInv, FT, FT_Conn, FT_Pool, FT_Wait, FT_Run, IndInv, TypeInv, LockInv, TI_Conn, TI_Pool, TI_Chan, TI_Run, LI_RW, LI_Run, LI_Wait, LI_Reg, LI_Clk, Procs, CPcs, RPcs, WPcs, WIn, WPend, Conns, WCap, connVars, poolVars, waitVars, runVars, Msg2, Msg3, ActGoals, ChanWriteDiscipline, WaitListDiscipline, ConnLockDiscipline, WSubRead
+  BY SMT DEF ActGoals, ChanWriteDiscipline, WaitListDiscipline, ConnLockDiscipline, connVars, poolVars, waitVars, runVars, WSubRead
 
 LEMMA A_WSubBody == ASSUME ParamOK, PInv, NEW w \in Waiters, WSubBody(w) PROVE ActGoals
 <1> DEFINE e == <<hread[w], best, best>>
@@ -77,25 +77,25 @@ LEMMA A_WRecv == ASSUME ParamOK, PInv, NEW w \in Waiters, WRecv(w) PROVE ActGoal
   BY InfNat, SMT DEF ParamOK, PInv, FT, FT_Conn, FT_Pool, FT_Wait, FT_Run, IndInv, TypeInv, LockInv, TI_Conn, TI_Pool, TI_Chan, TI_Run, LI_RW, LI_Run, LI_Wait, LI_Reg, LI_Clk, Procs, CPcs, RPcs, WPcs, WIn, WPend, Conns, WCap, connVars, poolVars, waitVars, runVars, Msg2, Msg3, ActGoals, ChanWriteDiscipline, WaitListDiscipline, ConnLockDiscipline, WRecv, G_WRecv
 
 LEMMA A_WTimeout == ASSUME ParamOK, PInv, NEW w \in Waiters, WTimeout(w) PROVE ActGoals
-  BY InfNat, SMT DEF ParamOK, PInv, FT, FT_Conn, FT_Pool, FT_Wait, FT_Run, IndInv, TypeInv, LockInv, TI_Conn, TI_Pool, TI_Chan, TI_Run, LI_RW, LI_Run, LI_Wait, LI_Reg, LI_Clk, Procs, CPcs, RPcs, WPcs, WIn, WPend, Conns, WCap, connVars, poolVars, waitVars, runVars, Msg2, Msg3, ActGoals, ChanWriteDiscipline, WaitListDiscipline, ConnLockDiscipline, WTimeout
+  BY SMT DEF ActGoals, ChanWriteDiscipline, WaitListDiscipline, ConnLockDiscipline, connVars, poolVars, waitVars, runVars, WTimeout
 
 LEMMA A_Cancel == ASSUME ParamOK, PInv, NEW w \in Waiters, Cancel(w) PROVE ActGoals
-  BY InfNat, SMT DEF ParamOK, PInv, FT, FT_Conn, FT_Pool, FT_Wait, FT_Run, IndInv, TypeInv, LockInv, TI_Conn, TI_Pool, TI_Chan, TI_Run, LI_RW, LI_Run, LI_Wait, LI_Reg, LI_Clk, Procs, CPcs, RPcs, WPcs, WIn, WPend, Conns, WCap, connVars, poolVars, waitVars, runVars, Msg2, Msg3, ActGoals, ChanWriteDiscipline, WaitListDiscipline, ConnLockDiscipline, Cancel
+  BY SMT DEF ActGoals, ChanWriteDiscipline, WaitListDiscipline, ConnLockDiscipline, connVars, poolVars, waitVars, runVars, Cancel
 
 LEMMA A_WCancelRet == ASSUME ParamOK, PInv, NEW w \in Waiters, WCancelRet(w) PROVE ActGoals
-  BY InfNat, SMT DEF ParamOK, PInv, FT, FT_Conn, FT_Pool, FT_Wait, FT_Run, IndInv, TypeInv, LockInv, TI_Conn, TI_Pool, TI_Chan, TI_Run, LI_RW, LI_Run, LI_Wait, LI_Reg, LI_Clk, Procs, CPcs, RPcs, WPcs, WIn, WPend, Conns, WCap, connVars, poolVars, waitVars, runVars, Msg2, Msg3, ActGoals, ChanWriteDiscipline, WaitListDiscipline, ConnLockDiscipline, WCancelRet
+  BY SMT DEF ActGoals, ChanWriteDiscipline, WaitListDiscipline, ConnLockDiscipline, connVars, poolVars, waitVars, runVars, WCancelRet
 
 LEMMA A_WUnsubAnn == ASSUME ParamOK, PInv, NEW w \in Waiters, WUnsubAnn(w) PROVE ActGoals
-  BY InfNat, SMT DEF ParamOK, PInv, FT, FT_Conn, FT_Pool, FT_Wait, FT_Run, IndInv, TypeInv, LockInv, TI_Conn, TI_Pool, TI_Chan, TI_Run, LI_RW, LI_Run, LI_Wait, LI_Reg, LI_Clk, Procs, CPcs, RPcs, WPcs, WIn, WPend, Conns, WCap, connVars, poolVars, waitVars, runVars, Msg2, Msg3, ActGoals, ChanWriteDiscipline, WaitListDiscipline, ConnLockDiscipline, WUnsubAnn, Free, Announce
+  BY SMT DEF ActGoals, ChanWriteDiscipline, WaitListDiscipline, ConnLockDiscipline, connVars, poolVars, waitVars, runVars, WUnsubAnn, Free, Announce
 
 LEMMA A_WUnsubAcq == ASSUME ParamOK, PInv, NEW w \in Waiters, WUnsubAcq(w) PROVE ActGoals
-  BY InfNat, SMT DEF ParamOK, PInv, FT, FT_Conn, FT_Pool, FT_Wait, FT_Run, IndInv, TypeInv, LockInv, TI_Conn, TI_Pool, TI_Chan, TI_Run, LI_RW, LI_Run, LI_Wait, LI_Reg, LI_Clk, Procs, CPcs, RPcs, WPcs, WIn, WPend, Conns, WCap, connVars, poolVars, waitVars, runVars, Msg2, Msg3, ActGoals, ChanWriteDiscipline, WaitListDiscipline, ConnLockDiscipline, WUnsubAcq, CanAcquire, Acquire
+  BY SMT DEF ActGoals, ChanWriteDiscipline, WaitListDiscipline, ConnLockDiscipline, connVars, poolVars, waitVars, runVars, WUnsubAcq, CanAcquire, Acquire
 
 LEMMA A_WUnsubBody == ASSUME ParamOK, PInv, NEW w \in Waiters, WUnsubBody(w) PROVE ActGoals
   BY InfNat, SMT DEF ParamOK, PInv, FT, FT_Conn, FT_Pool, FT_Wait, FT_Run, IndInv, TypeInv, LockInv, TI_Conn, TI_Pool, TI_Chan, TI_Run, LI_RW, LI_Run, LI_Wait, LI_Reg, LI_Clk, Procs, CPcs, RPcs, WPcs, WIn, WPend, Conns, WCap, connVars, poolVars, waitVars, runVars, Msg2, Msg3, ActGoals, ChanWriteDiscipline, WaitListDiscipline, ConnLockDiscipline, WUnsubBody, G_WUnsubBody, WUnlock
 
 LEMMA A_Tick == ASSUME ParamOK, PInv, Tick PROVE ActGoals
-  BY InfNat, SMT DEF ParamOK, PInv, FT, FT_Conn, FT_Pool, FT_Wait, FT_Run, IndInv, TypeInv, LockInv, TI_Conn, TI_Pool, TI_Chan, TI_Run, LI_RW, LI_Run, LI_Wait, LI_Reg, LI_Clk, Procs, CPcs, RPcs, WPcs, WIn, WPend, Conns, WCap, connVars, poolVars, waitVars, runVars, Msg2, Msg3, ActGoals, ChanWriteDiscipline, WaitListDiscipline, ConnLockDiscipline, Tick
+  BY SMT DEF ActGoals, ChanWriteDiscipline, WaitListDiscipline, ConnLockDiscipline, connVars, poolVars, waitVars, runVars, Tick
 
 THEOREM ActDiscipline == ASSUME ParamOK PROVE PInv /\ GNext => ActGoals
 <1> SUFFICES ASSUME PInv, GNext PROVE ActGoals
